@@ -9,6 +9,7 @@ import (
 	"context"
 	"fmt"
 	"math/rand"
+	"strings"
 	"time"
 
 	"google.golang.org/grpc/codes"
@@ -38,6 +39,12 @@ func phaseSpecs(fc bool) []*RPCSpec {
 		// before headers: nothing sent either way after the new_stream
 		{ID: "idle", Method: "Bidi", Client: []Op{{K: "open"}, {K: "sync", Name: "never"}, {K: "recvall"}},
 			Handler: []Op{{K: "ctxwait"}, {K: "send", N: 3}, {K: "ret"}}},
+	}
+	if !fc {
+		// without flow control: responses nobody reads park the caller's receive loop itself (started
+		// last, so that the other calls have reached their phases); only the end of the tunnel frees it
+		specs = append(specs, &RPCSpec{ID: "cloop", Method: "ServerStream", Client: []Op{{K: "open"}, {K: "send", N: 10}, {K: "close"}, {K: "sync", Name: "never"}, {K: "recvall"}},
+			Handler: []Op{{K: "recv"}, {K: "send", N: 100}, {K: "send", N: 200}, {K: "send", N: 300}, {K: "send", N: 400}, {K: "ctxwait"}, {K: "ret"}}})
 	}
 	if fc {
 		specs = append(specs,
@@ -303,10 +310,20 @@ func famTermination(w *World, c *Case, rng *rand.Rand) {
 
 	// ---- lifecycle oracle ----
 	w.Stat("termination_runs", 1)
+	// Known finding D20 is keyed by what is observed, not by the configuration: the calling side's
+	// receive loop is, at this very moment, parked handing a frame to a revision-zero stream whose
+	// application does not read. Any other reason for the same symptoms keeps the plain key.
+	wedged := ""
+	for _, g := range BubbleGoroutines() {
+		if strings.Contains(g, "noFlowControlReceiver") && strings.Contains(g, ".accept(") && strings.Contains(g, ".recvLoop(") {
+			wedged = ":calling-side-receive-loop-parked-on-unread-rev0-stream"
+			w.Stat("termination_with_parked_rev0_receive_loop", 1)
+		}
+	}
 	select {
 	case <-tc.Done():
 	default:
-		w.Violate("C04", "done-not-closed:"+cause, "cause %s at frame %d: the channel's Done() is not closed an hour later", cause, k)
+		w.Violate("C04", "done-not-closed:"+cause+wedged, "cause %s at frame %d: the channel's Done() is not closed an hour later", cause, k)
 	}
 	err1 := tc.Err()
 	clean := cause == "close" || cause == "stop" || cause == "gracefulstop-then-stop"
@@ -319,7 +336,7 @@ func famTermination(w *World, c *Case, rng *rand.Rand) {
 	// serving call
 	sErr, sReturned := w.carrierServerResultFor()
 	if !sReturned {
-		w.Violate("C04", "serving-call-not-returned:"+cause, "cause %s at frame %d (%s): the serving call has not returned", cause, k, w.Cfg.Dir)
+		w.Violate("C04", "serving-call-not-returned:"+cause+wedged, "cause %s at frame %d (%s): the serving call has not returned", cause, k, w.Cfg.Dir)
 	} else {
 		// a nil result after a clean end is documented for ReverseTunnelServer.Serve only;
 		// the forward serving call is a gRPC handler whose status the property does not pin
@@ -334,7 +351,7 @@ func famTermination(w *World, c *Case, rng *rand.Rand) {
 		select {
 		case <-stopDone:
 		default:
-			w.Violate("C04", "stop-not-returned", "Stop() has not returned an hour after it was called")
+			w.Violate("C04", "stop-not-returned"+wedged, "Stop() has not returned an hour after it was called")
 		}
 	}
 	// every operation returned; every RPC not completed before is non-OK
